@@ -322,7 +322,16 @@ func (s *state) Enqueue(task *Task) (nwait int) {
 	}
 	for _, task := range task.Phase() {
 		switch task.State() {
-		case TaskOk, TaskErr:
+		case TaskOk:
+		case TaskErr:
+			// The task failed in an earlier or concurrent evaluation. Failed
+			// tasks are never re-run, so this evaluation fails, too; the task
+			// stays unsatisfied so that its dependents are not released.
+			if s.err == nil {
+				msg := fmt.Sprintf("error running %s", task.Name)
+				s.err = errors.E(msg, task.Err())
+			}
+			nwait++
 		case TaskWaiting, TaskRunning:
 			s.schedule(task)
 			nwait++
